@@ -209,6 +209,7 @@ func c11Run(t *testing.T, cfg c11Config) c11Outcome {
 			d, _, _ := w.NewDialer(sim.ClientKind{Name: "spec", U: true, Spec: func() *quic.QUICSpec { return spec }})
 			fl = sim.CaptureFlight(w, d, &quic.Config{}, 300*time.Millisecond)
 			d.Close()
+			w.CloseEndpoints()
 		})
 		fail := func(key, format string, a ...any) {
 			if out.fail == nil {
@@ -401,6 +402,7 @@ func c11RunFP(t *testing.T, cfg c11FPConfig) c11Outcome {
 				}})
 				fl = sim.CaptureFlight(w, d, &quic.Config{}, 300*time.Millisecond)
 				d.Close()
+				w.CloseEndpoints()
 				hex, ferr = c11Fingerprint(fl.First) // inside the bubble: clienthellod uses deadlines
 			})
 			if ferr != nil {
